@@ -45,8 +45,10 @@ type c18Op struct {
 }
 
 // c18Ops are the read-only observers of the property text.
-func c18Ops(e error) []c18Op {
-	refs := append([]error{e}, gen.Sentinels...)
+func c18Ops(e error, fresh []error) []c18Op {
+	// fresh: reference objects nobody has looked at before (an Is() that
+	// memoises per reference is cold for them)
+	refs := append(append([]error{e}, fresh...), gen.Sentinels...)
 	return []c18Op{
 		{"fmt %+v", func() string { return obs.Fmt("%+v", e) }},
 		{"redact %+v", func() string { return obs.Red("%+v", e) }},
@@ -78,6 +80,18 @@ func c18Ops(e error) []c18Op {
 		{"redacted %v", func() string { return obs.S(func() string { return string(redact.Sprintf("%v", e).Redact()) }) }},
 		{"accessors", func() string { return fmt.Sprint(obs.Accessors(e)) }},
 	}
+}
+
+// c18Fresh builds reference errors that are equal (by mark) to the shared
+// value and to one of its causes but are distinct, never-observed objects.
+func c18Fresh(spec *gen.Node) []error {
+	world.Full().Install()
+	r := gen.Build(spec)
+	out := []error{r}
+	if c := errors.UnwrapAll(r); c != nil {
+		out = append(out, c)
+	}
+	return out
 }
 
 // c18Values builds the shared value and an identical twin (same spec, same
@@ -116,9 +130,9 @@ func (c18r) Run(t *tape.Tape, tier Tier) *Result {
 	shared, twin, state := c18Values(t, spec)
 	res.Desc.Tree = spec.Expr()
 	res.Kinds = kindsOf(spec)
-	ops := c18Ops(shared)
+	ops := c18Ops(shared, c18Fresh(spec))
 	solo := make([]string, len(ops))
-	for i, op := range c18Ops(twin) {
+	for i, op := range c18Ops(twin, c18Fresh(spec)) {
 		solo[i] = op.fn()
 	}
 	nG := 16 + t.Draw(9)
